@@ -705,6 +705,10 @@ func (eng *Engine) paramNames(fc *FuncContract, sig *types.Signature, recvIface 
 			names = append(names, p.Name())
 			tys = append(tys, p.Type())
 		}
+		if sig.Recv() != nil && len(names) > 0 && (callee.Pkg == nil || !strings.HasPrefix(callee.Pkg.Pkg.Path(), modulePath)) && callee.Origin() == nil {
+			// dependency method loaded with its body (overlay mode): same naming as from export data
+			names[0] = "recv"
+		}
 		if len(fc.Params) == len(names) {
 			copy(names, fc.Params)
 		} else if len(fc.Params) > 0 && sig.Recv() != nil && len(fc.Params) == len(names)-1 {
